@@ -68,6 +68,13 @@ def make_project(spec, pops=1, transfers=0, years=(2000.0,), start=2000.0, end=2
 
     F = make_framework(spec)
     D = at.ProjectData.new(F, np.array(list(years), dtype=float), pops=pops, transfers=transfers)
+    # a new databook has empty transfer tables: enter a value for every ordered pair of distinct populations
+    pnames = list(D.pops.keys())
+    for tr in D.transfers:
+        for i, a in enumerate(pnames):
+            for j, b in enumerate(pnames):
+                if i != j:
+                    tr.ts[(a, b)] = at.TimeSeries(assumption=0.05 / (1 + i + j), units="Probability (per year)")
     P = at.Project(framework=F, databook=D.to_spreadsheet(), do_run=False)
     P.settings.update_time_vector(start=start, end=end, dt=dt)
     return P
@@ -119,6 +126,20 @@ def M5():
     )
 
 
+def M5F():
+    """junction whose outflow proportion is a *function* of the model state (the initial flush must use the function value at t0,
+    not the databook default): a -> j -> (b via pb = 0.25 + 1e-6*a, c via pc)"""
+    return dict(
+        name="M5F",
+        comps=[dict(name="a", default=100), dict(name="j", junction="y", setup=True, default=12), dict(name="b", default=5), dict(name="c", default=6)],
+        pars=[dict(name="aj", format="probability", default=0.4), dict(name="pb", format="proportion", default=0.5, function="0.25+0.000001*a", databook=True), dict(name="pc", format="proportion", default=0.5), dict(name="back", format="rate", default=0.1)],
+        transitions={("a", "j"): "aj", ("j", "b"): "pb", ("j", "c"): "pc", ("b", "a"): "back", ("c", "a"): "back"},
+    )
+
+
+FLUSH_SPEC = dict(M5F=dict(pb=lambda stock: 0.25 + 0.000001 * stock["a"]))  # function-valued proportions: value on the initial state
+
+
 def M5R():
     """residual outflow of a junction feeds a second junction that is listed *before* it (execution order must come from the graph)"""
     return dict(
@@ -156,6 +177,16 @@ def M8(dur=0.5):
         comps=[dict(name="a", default=100), dict(name="v1", default=40), dict(name="jv", junction="y"), dict(name="v2", default=10), dict(name="v3", default=5), dict(name="r", default=0)],
         pars=[dict(name="vac", format="probability", default=0.3), dict(name="dur", format="duration", default=dur, timed="y"), dict(name="prog", format="probability", default=0.4), dict(name="viaj", format="probability", default=0.2), dict(name="q2", format="proportion", default=0.6), dict(name="q3", format="proportion", default=0.4), dict(name="back", format="rate", default=0.1)],
         transitions={("a", "v1"): "vac", ("v1", "r"): "dur", ("v2", "r"): "dur", ("v3", "r"): "dur", ("v1", "v2"): "prog", ("v1", "jv"): "viaj", ("jv", "v2"): "q2", ("jv", "v3"): "q3", ("r", "a"): "back"},
+    )
+
+
+def M8J(dur=0.5):
+    """junction of a duration group with TWO timed inflows (v1 -> jv <- v2) and two timed outflows (jv -> v3, jv -> v4)"""
+    return dict(
+        name="M8J",
+        comps=[dict(name="a", default=100), dict(name="v1", default=40), dict(name="v2", default=10), dict(name="jv", junction="y"), dict(name="v3", default=5), dict(name="v4", default=2), dict(name="r", default=0)],
+        pars=[dict(name="vac", format="probability", default=0.3), dict(name="vac2", format="probability", default=0.1), dict(name="dur", format="duration", default=dur, timed="y"), dict(name="via1", format="probability", default=0.2), dict(name="via2", format="probability", default=0.3), dict(name="q3", format="proportion", default=0.6), dict(name="q4", format="proportion", default=0.4), dict(name="back", format="rate", default=0.1)],
+        transitions={("a", "v1"): "vac", ("a", "v2"): "vac2", ("v1", "r"): "dur", ("v2", "r"): "dur", ("v3", "r"): "dur", ("v4", "r"): "dur", ("v1", "jv"): "via1", ("v2", "jv"): "via2", ("jv", "v3"): "q3", ("jv", "v4"): "q4", ("r", "a"): "back"},
     )
 
 
@@ -214,4 +245,4 @@ def M12():
     )
 
 
-CATALOGUE = dict(M1=M1, M2=M2, M4=M4, M5=M5, M5R=M5R, M6=M6, M7=M7, M8=M8, M8R=M8R, M8B=M8B, M10=M10, M12=M12)
+CATALOGUE = dict(M1=M1, M2=M2, M4=M4, M5=M5, M5F=M5F, M5R=M5R, M6=M6, M7=M7, M8=M8, M8J=M8J, M8R=M8R, M8B=M8B, M10=M10, M12=M12)
